@@ -252,6 +252,34 @@ func runC04(p []PStmt, salt uint64) Case {
 		detailsOK = false
 		notes = append(notes, "adding to an (empty) Details map after it was handed in changed a definition")
 	}
+	// ... and Details applied by a DERIVED factory (WithOptions, With + context options, before and after a typed
+	// field option) stays in that factory: the definition it was derived from, and errors made earlier, keep
+	// their fields
+	for i, f := range w.defs {
+		if i >= 4 {
+			break
+		}
+		base, ok := f.(errdef.Definition)
+		if !ok {
+			continue
+		}
+		earlier := base.New("earlier")
+		beforeB, beforeErr := snapDef(base), w.snapErr(earlier)
+		d1 := base.WithOptions(errdef.Details{"leak": i})
+		d2 := base.With(errdef.ContextWithOptions(context.Background(), errdef.Details{"ctxleak": i}), errdef.HTTPStatus(500+i))
+		d3 := base.WithOptions(errdef.HTTPStatus(400), errdef.Details{"late": i})
+		got1, ok1 := errdef.DetailsFrom(d1.New("x"))
+		got2, ok2 := errdef.DetailsFrom(d2.New("x"))
+		got3, ok3 := errdef.DetailsFrom(d3.New("x"))
+		if !ok1 || !ok2 || !ok3 || got1["leak"] != i || got2["ctxleak"] != i || got3["late"] != i {
+			detailsOK = false
+			notes = append(notes, "Details given to a derived factory are missing from its errors")
+		}
+		if snapDef(base) != beforeB || w.snapErr(earlier) != beforeErr {
+			detailsOK = false
+			notes = append(notes, fmt.Sprintf("Details applied by a factory derived from definition %d changed that definition or an earlier error", i))
+		}
+	}
 	// resolver.New: the definition list is caller-owned (duplicates force a compaction)
 	resolverOK := true
 	if len(w.defs) > 0 {
